@@ -122,8 +122,31 @@ func runOnce(t *testing.T, e *Engine, ch *Choices, cfg *RunCfg) (o *Outcome) {
 	if !e.Bubble {
 		return e.Run(ch, cfg)
 	}
+	defer func() {
+		// synctest panics when the bubble's main function has returned but goroutines are still parked in
+		// it. The tasks have all ended by then (or the run was Fatal): what remains are goroutines the
+		// LIBRARY started (a janitor, a reporter). The simulator schedules caller tasks only.
+		if r := recover(); r != nil {
+			if msg := fmt.Sprint(r); o != nil && strings.HasPrefix(msg, "deadlock:") && strings.Contains(msg, "bubble") {
+				o.Unsupported = "goroutines started by the library were still parked when the run ended (" + msg + "); the simulator schedules caller tasks only"
+				return
+			}
+			panic(r)
+		}
+	}()
 	synctest.Test(t, func(t *testing.T) {
+		g0 := runtime.NumGoroutine()
 		o = e.Run(ch, cfg)
+		if o.Unsupported == "" && !o.Fatal {
+			// every task has ended; whatever else is alive in the bubble was started by the library
+			synctest.Wait()
+			if n := runtime.NumGoroutine() - g0; n > 0 {
+				o.Unsupported = fmt.Sprintf("%d goroutine(s) started by the library were alive when the run's tasks had all ended; the simulator schedules caller tasks only", n)
+			}
+		}
+		if o.Unsupported != "" {
+			unsupportedExit(o)
+		}
 		if o.Fatal {
 			// a goroutine is stuck inside the library and cannot be released; a bubble cannot end with
 			// blocked goroutines, so the verdict is written and the process exits from inside
@@ -139,6 +162,12 @@ func runOnce(t *testing.T, e *Engine, ch *Choices, cfg *RunCfg) (o *Outcome) {
 
 // fatalExit is installed by TestWorker: it records the outcome of a run that cannot return.
 var fatalExit func(o *Outcome, ch *Choices)
+
+// unsupportedExit ends the worker: the library does something the simulator cannot represent.
+func unsupportedExit(o *Outcome) {
+	fmt.Fprintln(os.Stderr, "worker: UNSUPPORTED:", o.Unsupported)
+	os.Exit(7)
+}
 
 func TestWorker(t *testing.T) {
 	raw := os.Getenv("VF_ARGS")
@@ -234,6 +263,9 @@ func TestWorker(t *testing.T) {
 			}
 			ch := NewChoices(a.Seed, idx)
 			o := runOnce(t, e, ch, cfg)
+			if o.Unsupported != "" {
+				unsupportedExit(o)
+			}
 			res.Runs++
 			res.Evals += int64(o.Evals)
 			res.Steps += o.Steps
